@@ -208,6 +208,19 @@ def check_slab_keys(rep, rid, core, elem, label, floor, extra=()):
                % (label, moved or 'too few operations (%d)' % n))
 
 
+def check_fresh_view(rep, rid, core):
+    """every view entry point of the bridge computes the view from the model as it is when it is called: no return is reachable
+    without a (transitive) call of Core::view — a cached copy goes stale when a call fails after update has run"""
+    from rules.common import Summaries
+    sm9 = Summaries([core])
+    for f in [g for g in core.built if g.kind == 'AssocFn' and g.name == 'view' and '::bridge::' in g.npath and not g.j.get('exp')]:
+        sites = sm9.sites(f, ['crux_core::core::Core::view'], 'must')
+        fresh = bool(sites) and not any(r_ in f.reachable([0], removed_blocks=sites) for r_ in f.return_blocks())
+        rep.expect(rid, fresh, '%s|fresh-view' % f.kpath, 'no return is reachable without a (transitive) call of Core::view',
+                   '%s can return Ok without having serialised the current view of the core (a cached copy would go stale when a call fails after '
+                   'update has run)' % f.path)
+
+
 def check_resume_atomic(rep, rid, res):
     """the lookup of the entry, its resolution and its removal all happen inside ONE region of the registry lock"""
     from rules.props import c03
@@ -352,14 +365,7 @@ def check(ctx, rep):
     # R09.f: the view the bridge hands out is the serialisation of the core's view at that moment: each view() runs Core::view and
     # returns the buffer that serialisation wrote (no copy kept from an earlier call can be returned)
     rep.rule('R09.f', 'Bridge::view serialises a fresh Core::view on every path to its Ok return', floor=2)
-    from rules.common import Summaries
-    sm9 = Summaries([core])
-    for f in [g for g in core.built if g.kind == 'AssocFn' and g.name == 'view' and '::bridge::' in g.npath and not g.j.get('exp')]:
-        sites = sm9.sites(f, ['crux_core::core::Core::view'], 'must')
-        fresh = bool(sites) and not any(r_ in f.reachable([0], removed_blocks=sites) for r_ in f.return_blocks())
-        rep.expect('R09.f', fresh, '%s|fresh-view' % f.kpath, 'no return is reachable without a (transitive) call of Core::view',
-                   '%s can return Ok without having serialised the current view of the core (a cached copy would go stale when a call fails after '
-                   'update has run)' % f.path)
+    check_fresh_view(rep, 'R09.f', core)
     # R09.g: the bridge accepts every message the typed core would and returns exactly the bytes it serialised: the single bincode options
     # value carries no byte limit or other option that makes the decoder reject (or the encoder change) what the other direction produced,
     # and each entry point serialises into a buffer created in that call and returns it (shared with C10 R10.d / R10.g)
